@@ -318,3 +318,19 @@ Fixpoint run_calls (r : registers) (cs : list call) : list (rres aval) * registe
       let '(xs, r') := run_calls (set_data r d) rest in
       (x :: xs, r')
   end.
+
+(* a history on ONE Registers object that also re-configures it: reads interleaved with
+   WithByteOrder(bo).  WithByteOrder stores the value it is given -- 0 included: 0 is then the
+   object's default order (no flag: big endian, high word first, characters in wire order), it does
+   NOT mean "keep / restore the library default" -- and the last call wins.  Only reads produce a
+   result. *)
+Inductive op := OpRead (a : accessor) (address : N) | OpOrder (byteOrder : N).
+Fixpoint run_ops (r : registers) (os : list op) : list (rres aval) * registers :=
+  match os with
+  | [] => ([], r)
+  | OpOrder bo :: rest => run_ops (with_byte_order r bo) rest
+  | OpRead a addr :: rest =>
+      let '(x, d) := access r a addr in
+      let '(xs, r') := run_ops (set_data r d) rest in
+      (x :: xs, r')
+  end.
